@@ -158,11 +158,18 @@ class CanonWorld(ProcBase):
             cur = nxt
         circ = {"a": [1, 2]}
         circ["a"].append(circ)
-        for bad in (circ, {"n": [1, 10 ** 5000]}, {"k": deep}, {"x": {1, 2}}, {1: "a", "b": 2}):
+        for bad in (circ, {"n": [1, 10 ** 5000]}, {"k": deep}, {"x": {1, 2}}, {1: "a", "b": 2},
+                    {"z": 1, "a": {"m": {2: "int key", "k": 1}, "b": 2}, "c": [3]}, {"outer": {"zz": 0, "inner": {"x": {7, 8}, "a": 1}}}):
+            shape = snapshot(bad) if bad is not circ and "k" not in bad else None
             try:
                 cs(bad)
             except Exception:  # noqa: BLE001
                 run.probe("failed_serialization_then_retry")
+            if shape is not None and snapshot(bad) != shape:
+                run.violate(("C07", "C12"), "serializer-changed-its-argument",
+                            "a serialization that failed left the caller's object changed (members lost or reordered)",
+                            "serializer-changed-its-argument")
+                return None
             for v in ({"after": ["failure", 1.5, None]}, "x"):
                 try:
                     b = cs(v)
@@ -632,6 +639,26 @@ class CliWorld(ChainWorld):
         kpath = os.path.join(self.scratch, "key%d.hex" % self.nfile)
         doc = op["doc"]
         before = dump_as(doc, op.get("fmt", "canon")) if "raw" not in op else op["raw"].encode()
+        if op.get("presign") and isinstance(doc, dict) and isinstance(doc.get("packages"), dict) and "raw" not in op:
+            # the file was signed before (same key), then some artifact's metadata changed: a repodata patch, a rebuild
+            try:
+                old = copy.deepcopy(doc)
+                sigs = {}
+                for sec in ("packages", "packages.conda"):
+                    for nm, rec in (old.get(sec) or {}).items():
+                        sigs[nm] = {self.keys.pub[0]: {"signature": self.keys.priv[0].sign(refcanon(rec)).hex()}}
+                names = sorted(sigs)
+                if names:
+                    tgt = names[op["presign"] % len(names)]
+                    for sec in ("packages", "packages.conda"):
+                        if isinstance(doc.get(sec), dict) and tgt in doc[sec]:
+                            rec = doc[sec][tgt]
+                            doc[sec][tgt] = dict(rec, patched=True) if isinstance(rec, dict) else {"patched": rec}
+                    doc["signatures"] = sigs
+                    before = dump_as(doc, op.get("fmt", "canon"))
+                    self.run.fault("resign_after_metadata_change")
+            except (TypeError, AttributeError, AssertionError):
+                pass
         with open(rpath, "wb") as f:
             f.write(before)
         seed_hex = self.keys.seeds[0].hex()
@@ -665,6 +692,15 @@ class CliWorld(ChainWorld):
             arts.update(cur.get("packages.conda", {}))
             signed = set(cur["signatures"]) == set(arts) and all(
                 set(cur["signatures"][n]) == {pub} and ref_is_hex(cur["signatures"][n][pub]["signature"], 128) for n in arts) and after == refcanon(cur)
+            if signed:
+                # "actually signed": every stored signature is a valid signature by that key over the artifact's *current* metadata
+                pk = self.lib.common.PublicKey.from_hex(pub)
+                for n in sorted(arts):
+                    o = self.calls.call("verify_signature", cur["signatures"][n][pub]["signature"], pk, refcanon(arts[n]))
+                    if not o.ok:
+                        signed = False
+                        self.run.probe("stale_or_invalid_signature_in_output")
+                        break
         except (ValueError, KeyError, TypeError, AttributeError):
             signed = False
         good_input = k in ("good", "upper", "spaces") and isinstance(doc, dict) and isinstance(doc.get("packages"), dict) and \
@@ -815,6 +851,8 @@ class CliWorld(ChainWorld):
                 op["raw"] = rng.choice(["", "{", "not json"])
             if rng.random() < 0.2:
                 op["fsize"] = rng.choice([0, 64, 512, 2048])
+            elif rng.random() < 0.35:
+                op["presign"] = rng.randint(1, 50)
             return op
         if r < 0.74:
             head = self.head["signed"]["delegations"].get("key_mgr", {}).get("pubkeys", [])
